@@ -1,1 +1,460 @@
-import EventppVerif.Basic
+import EventppVerif.Util.Fault
+import EventppVerif.Q.Unwind
+import EventppVerif.Q.Demo
+/-
+  Property C09 — exception safety.
+
+  "If a callback, listener, filter, predicate, or a copy, move or comparison of a user type
+  throws, or a memory allocation fails, during any operation, the exception reaches the caller,
+  nothing leaks, and the object stays fully usable.  Listener-management operations (directly or
+  through the remover utilities), enqueue, peekEvent and callback-list assignment leave the object
+  exactly as it was before the call, a failed copy of any container leaves its source untouched
+  and its destination valid, and an exception escaping an invocation, dispatch or processing call
+  leaves the listener lists as the callbacks themselves left them, discards only the events that
+  processing call had already taken out of the queue, and leaves emptiness reporting and waiting
+  correct."
+
+  Quantifier: for every operation in every reachable state, a throw at each individual point where
+  user code runs or memory is allocated (the k-th such point, for every k), singly and in
+  succession.
+
+  Three layers:
+
+  1. `Util/Fault.lean`: an operation is a table of fault points and writes; `runFault steps k s`
+     lets the k-th fault point throw.  Proved here for EVERY table, state and k: whether it throws
+     (`C09_runFault_throws_iff`), the state at the throw (`C09_basic`), the strong guarantee for
+     tables whose fault points all precede their writes (`C09_strong`), invariants
+     (`C09_usable`), and successions of faulted and unfaulted operations (`C09_succession`).
+  2. the tables of the operations the property names (read off the source, cited at each table in
+     `Util/Fault.lean`) and their shape; the one operation whose table does NOT have the shape —
+     `ScopedRemover::append*` — with the resulting violation (`C09_scopedremover_counterexample`,
+     the recorded known finding `rem.append:unrecorded-listener`).
+  3. `Q/Unwind.lean`: an exception escaping a processing call of the queue machine, as stack
+     unwinding, for every reachable configuration (`C09_unwind_*`).
+
+  Tie to the source: the fault harness (`harness/fault.cpp`) enumerates the k-th fault point of
+  every operation against the real headers and checks the same statements with an oracle; the
+  tables here are what its operation list instantiates.  "Nothing leaks" is checked there (every
+  allocation and every user object is counted); it has no counterpart in this file.
+
+  `HeterCallbackListBase::operator=(const &)` used to be declared `noexcept` although it copies
+  (copy-and-swap, same table as `assignSteps`): any throw called `std::terminate` instead of
+  reaching the caller.  That is a property of the declaration, not of the table; fixed in the
+  source (cdc8c7c), nothing to model.
+-/
+namespace Evp.Fault
+open Evp
+
+variable {σ : Type}
+
+/-! ## Part 1 — every table -/
+
+/-- **The exception reaches the caller exactly when a fault point is hit**: the run with the k-th
+    fault point throwing reports a throw iff the table has more than `k` fault points; otherwise it
+    is the run without fault. -/
+theorem C09_runFault_throws_iff (steps : List (Step σ)) (k : Nat) (s : σ) :
+    ((runFault steps k s).2 = true ↔ k < faultPoints steps) ∧
+    (faultPoints steps ≤ k → runFault steps k s = (runAll steps s, false)) := by
+  refine ⟨?_, fun h => runFault_of_ge h s⟩
+  rw [runFault_snd]
+  simp
+
+theorem runFault_throws_iff (steps : List (Step σ)) (k : Nat) (s : σ) :
+    (runFault steps k s).2 = true ↔ k < faultPoints steps :=
+  (C09_runFault_throws_iff steps k s).1
+
+/-- **Strong guarantee**: in a table whose fault points all precede its writes, for every state
+    and every `k`: if the k-th fault point throws, the state the caller finds is exactly the state
+    before the call. -/
+theorem C09_strong {steps : List (Step σ)} (hf : FaultsFirst steps) (k : Nat) (s : σ)
+    (ht : (runFault steps k s).2 = true) : (runFault steps k s).1 = s := by
+  obtain ⟨pre, post, rfl, hpre, hpost⟩ := hf
+  rcases runFault_append_noMutate hpre post k s with h | ⟨k', h⟩
+  · rw [h]
+  · rw [h, runFault_noFault hpost] at ht
+    cases ht
+
+/-- the same, for every fault point of the table at once, with the throw spelled out -/
+theorem C09_strong_all {steps : List (Step σ)} (hf : FaultsFirst steps) (s : σ) :
+    ∀ k, k < faultPoints steps → runFault steps k s = (s, true) := by
+  intro k hk
+  have ht := (runFault_throws_iff steps k s).mpr hk
+  have := C09_strong hf k s ht
+  exact Prod.ext this ht
+
+/-- **Basic guarantee, stated precisely**: for every table, state and `k`, the state at the throw
+    is the result of exactly the steps in front of the k-th fault point — the writes that were
+    made are there, none is rolled back, none of the later ones has happened ("as the callbacks
+    themselves left them").  `prefixBefore steps k` is that part of the table: a prefix, followed
+    by a fault point, containing exactly `k` fault points. -/
+theorem C09_basic (steps : List (Step σ)) (k : Nat) (s : σ) :
+    (runFault steps k s).1 = runAll (prefixBefore steps k) s ∧
+    prefixBefore steps k <+: steps ∧
+    (k < faultPoints steps → ∃ fp rest, steps = prefixBefore steps k ++ fp :: rest ∧
+      fp.isFaultPoint = true ∧ faultPoints (prefixBefore steps k) = k) :=
+  ⟨runFault_fst steps k s, prefixBefore_prefix steps k, prefixBefore_spec⟩
+
+/-- **The object stays usable**: whatever every write of the table preserves (the representation
+    invariant of the object) holds at the throw, for every `k`. -/
+theorem C09_usable {P : σ → Prop} {steps : List (Step σ)}
+    (h : ∀ f, Step.mutate f ∈ steps → ∀ s, P s → P (f s)) (k : Nat) {s : σ} (hs : P s) :
+    P (runFault steps k s).1 := runFault_preserves h k hs
+
+/-- **In succession**: a history of operations, each run with or without an injected fault.  If
+    every operation of the history that threw has the `FaultsFirst` shape, the final state is the
+    state reached by running only the operations that did not throw: each exception left no
+    trace, however many there were and wherever they hit. -/
+theorem C09_succession (h : List (Op σ)) (hf : ∀ op ∈ h, op.threw = true → FaultsFirst op.1) (s : σ) :
+    runHistory h s = runHistory (unfaulted h) s := by
+  induction h generalizing s with
+  | nil => rfl
+  | cons op r ih =>
+    have ihr := fun s => ih (fun o ho => hf o (by simp [ho])) s
+    cases ht : op.threw with
+    | true =>
+      have hstrong : op.run s = s := by
+        have hff := hf op (by simp) ht
+        rcases op with ⟨steps, _ | k⟩
+        · simp [Op.threw] at ht
+        · simp only [Op.threw, decide_eq_true_eq] at ht
+          exact C09_strong hff k s ((runFault_throws_iff steps k s).mpr ht)
+      simp only [runHistory, List.foldl_cons, unfaulted, ht, List.filter_cons, Bool.not_true,
+        Bool.false_eq_true, if_false]
+      rw [hstrong]
+      exact ihr s
+    | false =>
+      simp only [runHistory, List.foldl_cons, unfaulted, ht, List.filter_cons, Bool.not_false,
+        if_true, List.map_cons]
+      rw [Op.run_of_not_threw ht]
+      exact ihr _
+
+/-- the operations of `unfaulted h` are run without fault: the right-hand side of
+    `C09_succession` is a plain run -/
+theorem C09_succession_plain (h : List (Op σ)) (s : σ) :
+    runHistory (unfaulted h) s =
+      ((h.filter (fun op => !op.threw)).map (·.1)).foldl (fun s steps => runAll steps s) s := by
+  simp only [runHistory, unfaulted, List.foldl_map]
+  rfl
+
+/-! ## Part 1, continued — the operations the property names -/
+
+/-- **Listener management leaves the list exactly as it was**: `append`, `prepend`, `insert`,
+    `remove` of a callback list (hence `appendListener` … of a dispatcher, which forward to them),
+    for every list, every argument, every fault point. -/
+theorem C09_listener_management (l : CL) (cb i k : Nat) :
+    (k < 2 → runFault (appendSteps cb) k l = (l, true)) ∧
+    (k < 2 → runFault (prependSteps cb) k l = (l, true)) ∧
+    (k < 2 → runFault (insertSteps cb i) k l = (l, true)) ∧
+    (runFault (removeSteps i) k l).2 = false :=
+  ⟨fun h => C09_strong_all (appendSteps_faultsFirst cb) l k h,
+   fun h => C09_strong_all (prependSteps_faultsFirst cb) l k h,
+   fun h => C09_strong_all (insertSteps_faultsFirst cb i) l k h,
+   rfl⟩
+
+/-- **Callback-list assignment leaves the destination exactly as it was**, at every one of the
+    `2 * other.length` fault points (one allocation and one callback copy per element). -/
+theorem C09_assign (l other : CL) (k : Nat) (hk : k < 2 * other.length) :
+    runFault (assignSteps other) k l = (l, true) :=
+  C09_strong_all (assignSteps_faultsFirst other) l k (by rw [faultPoints_assignSteps]; exact hk)
+
+/-- … and without fault it is the assignment -/
+theorem C09_assign_completes (l other : CL) : runAll (assignSteps other) l = other := by
+  rw [assignSteps, runAll_append]
+  rfl
+
+/-- **enqueue and peekEvent leave the queue exactly as it was**, at each of their fault points. -/
+theorem C09_enqueue_peek (q : Qu) (e k : Nat) :
+    (k < 3 → runFault (enqueueSteps e) k q = (q, true)) ∧
+    (k < 1 → runFault peekSteps k q = (q, true)) :=
+  ⟨fun h => C09_strong_all (enqueueSteps_faultsFirst e) q k h,
+   fun h => C09_strong_all peekSteps_faultsFirst q k h⟩
+
+/-- **A failed copy leaves its source untouched and its destination valid**: wherever the copy
+    construction of a container is interrupted, the source is what it was and the destination is
+    a well-formed list holding a prefix of the source's elements. -/
+theorem C09_copy (src : List Nat) (k : Nat) :
+    (runFault (copyCtorSteps src) k ⟨src, []⟩).1.src = src ∧
+    (runFault (copyCtorSteps src) k ⟨src, []⟩).1.dst <+: src := by
+  obtain ⟨h1, m, hm, h2⟩ := copyCtor_fault src k src []
+  exact ⟨h1, by rw [h2]; simpa using hm⟩
+
+/-- **Remover utilities, as they should be**: with the record reserved before the listener is
+    attached, the remover and its list are exactly as before at each of the three fault points. -/
+theorem C09_remover_fixed (s : RS) (cb k : Nat) (hk : k < 3) :
+    runFault (removerAppendFixedSteps cb) k s = (s, true) :=
+  C09_strong_all (removerAppendFixedSteps_faultsFirst cb) s k hk
+
+/-- **Remover utilities, as they are (KNOWN FINDING `rem.append:unrecorded-listener`)**: the table
+    of the real `ScopedRemover::append*` attaches first and allocates the record afterwards; it is
+    not `FaultsFirst`, and for every state the fault in the record allocation (fault point 2) does
+    reach the caller but leaves the object changed: the listener is attached and the remover does
+    not know it. -/
+theorem C09_scopedremover_counterexample (s : RS) (cb : Nat) :
+    ¬ FaultsFirst (scopedRemoverAppendSteps cb) ∧
+    (runFault (scopedRemoverAppendSteps cb) 2 s).2 = true ∧
+    (runFault (scopedRemoverAppendSteps cb) 2 s).1 ≠ s ∧
+    (runFault (scopedRemoverAppendSteps cb) 2 s).1 =
+      { attached := s.attached ++ [cb], recorded := s.recorded } := by
+  refine ⟨scopedRemoverAppendSteps_not_faultsFirst cb, rfl, ?_, rfl⟩
+  intro h
+  have : (s.attached ++ [cb]).length = s.attached.length := congrArg (fun r => r.attached.length) h
+  simp at this
+
+/-- the first two fault points of the real table are harmless: the finding is exactly fault
+    point 2 -/
+theorem C09_scopedremover_other_points (s : RS) (cb : Nat) :
+    runFault (scopedRemoverAppendSteps cb) 0 s = (s, true) ∧
+    runFault (scopedRemoverAppendSteps cb) 1 s = (s, true) ∧
+    faultPoints (scopedRemoverAppendSteps cb) = 3 := ⟨rfl, rfl, rfl⟩
+
+/-! ## Part 2 — the statements are not vacuous -/
+
+/-- append on `[1, 2]`: both fault points throw and leave `[1, 2]`; without fault `[1, 2, 7]` -/
+example : runFault (appendSteps 7) 0 [1, 2] = ([1, 2], true) ∧
+          runFault (appendSteps 7) 1 [1, 2] = ([1, 2], true) ∧
+          runFault (appendSteps 7) 2 [1, 2] = ([1, 2, 7], false) := by decide
+
+example : runFault (insertSteps 7 1) 1 [1, 2] = ([1, 2], true) ∧
+          runAll (insertSteps 7 1) [1, 2] = [1, 7, 2] ∧
+          runAll (prependSteps 7) [1, 2] = [7, 1, 2] ∧
+          runAll (removeSteps 0) [1, 2] = [2] := by decide
+
+/-- assignment of a three-element list: six fault points, each leaves the destination alone -/
+example : faultPoints (assignSteps [4, 5, 6]) = 6 ∧
+          (∀ k < 6, runFault (assignSteps [4, 5, 6]) k [1, 2] = ([1, 2], true)) ∧
+          runFault (assignSteps [4, 5, 6]) 6 [1, 2] = ([4, 5, 6], false) := by decide
+
+example : (∀ k < 3, runFault (enqueueSteps 9) k [3] = ([3], true)) ∧
+          runFault (enqueueSteps 9) 3 [3] = ([3, 9], false) ∧
+          runFault peekSteps 0 [3] = ([3], true) := by decide
+
+/-- a copy interrupted at its 5th fault point: two elements made it, the source is intact -/
+example : runFault (copyCtorSteps [4, 5, 6]) 4 ⟨[4, 5, 6], []⟩ = (⟨[4, 5, 6], [4, 5]⟩, true) := by
+  decide
+
+/-- the known finding on a concrete state: listener 65 attached, not recorded -/
+example : runFault (scopedRemoverAppendSteps 65) 2 ⟨[10], [10]⟩ = (⟨[10, 65], [10]⟩, true) ∧
+          runFault (removerAppendFixedSteps 65) 2 ⟨[10], [10]⟩ = (⟨[10], [10]⟩, true) ∧
+          runAll (removerAppendFixedSteps 65) ⟨[10], [10]⟩ = ⟨[10, 65], [10, 65]⟩ := by decide
+
+/-- a table that is not `FaultsFirst` has a fault point at which the strong guarantee fails, so
+    `FaultsFirst` is not a decoration of `C09_strong` -/
+example : ∃ (steps : List (Step Nat)) (k : Nat), (runFault steps k 0).2 = true ∧ (runFault steps k 0).1 ≠ 0 :=
+  ⟨[.mutate (· + 1), .alloc], 0, by decide⟩
+
+/-- a history: append 7 faulted at point 1, append 8 unfaulted, assignment faulted at point 3,
+    append 9 with a fault index beyond its fault points (runs to the end) -/
+example :
+    runHistory [(appendSteps 7, some 1), (appendSteps 8, none), (assignSteps [4, 5], some 3),
+                (appendSteps 9, some 2)] [1] = [1, 8, 9] ∧
+    (unfaulted [(appendSteps 7, some 1), (appendSteps 8, none), (assignSteps [4, 5], some 3),
+                (appendSteps 9, some 2)]).length = 2 := by decide
+
+/-- `C09_basic` on a table with a write in front of the fault: exactly that write is there -/
+example : runFault (scopedRemoverAppendSteps 65) 2 ⟨[], []⟩ =
+    (runAll (prefixBefore (scopedRemoverAppendSteps 65) 2) ⟨[], []⟩, true) ∧
+    (prefixBefore (scopedRemoverAppendSteps 65) 2).length = 3 := by decide
+
+end Evp.Fault
+
+/-! ## Part 3 — an exception escaping a processing call of the queue machine -/
+
+namespace Evp.Q
+open Evp QCfg
+
+variable {b : QBeh} {c : QCfg}
+
+/-- what `unwind` removes, for a reachable configuration in which a processing call is running:
+    the frames of the running dispatch (no processing call among them), the innermost `.proc`
+    frame, and the `.wait` frame under it; the slots that vanish are that frame's
+    `todo ++ kept ++ idle`. -/
+theorem C09_unwind_frame (h : Reachable b c) (hp : 0 < procCount c.stack) :
+    ∃ above mode todo kept idle ph k below,
+      c.stack = above ++ .proc mode todo kept idle ph :: .wait k :: below ∧
+      procCount above = 0 ∧ (unwind c).stack = below ∧ poppedSlots c.stack = todo ++ kept ++ idle := by
+  obtain ⟨above, mode, todo, kept, idle, ph, r, h1, h2, h3, h4, _⟩ := exists_innermost hp
+  obtain ⟨k, below, rfl⟩ := h.proc_above_wait h1
+  exact ⟨above, mode, todo, kept, idle, ph, k, below, h1, h2, h3, h4⟩
+
+/-- **(a) Emptiness reporting stays correct**: after the exception has left the processing call,
+    `queueEmptyCounter` again counts exactly the processing calls still running; if the call was
+    the only one, the counter is 0 and `emptyQueue()` is true exactly when nothing is queued. -/
+theorem C09_unwind_guard (h : Reachable b c) :
+    (unwind c).ec = procCount (unwind c).stack ∧
+    (procCount c.stack = 1 →
+      (unwind c).ec = 0 ∧ ((unwind c).emptyQueue = true ↔ c.queue = [])) := by
+  refine ⟨unwind_guard h.guard, ?_⟩
+  intro h1
+  have h0 : (unwind c).ec = 0 := by simp [h.guard, h1]
+  refine ⟨h0, ?_⟩
+  simp [QCfg.emptyQueue, h.guard, h1]
+
+/-- **(b) Nothing is rolled back and nothing else is lost**: the listener lists and the filter
+    list are as the callbacks left them, the queue holds what it held (the events the call had not
+    taken, and those enqueued meanwhile), the free list, the trace and the counters are
+    untouched.  `wait` / `waitFor` test `!queueList.empty()` only, so they too see what they
+    should. -/
+theorem C09_unwind_keeps (c : QCfg) :
+    (unwind c).queue = c.queue ∧ (unwind c).lists = c.lists ∧ (unwind c).filters = c.filters ∧
+    (unwind c).free = c.free ∧ (unwind c).trace = c.trace ∧ (unwind c).nextSeq = c.nextSeq ∧
+    (unwind c).nextSlot = c.nextSlot ∧ (unwind c).nextId = c.nextId :=
+  ⟨rfl, rfl, rfl, rfl, rfl, rfl, rfl, rfl⟩
+
+/-- **(c) Exactly the events of the abandoned call are discarded**: every event ever enqueued is,
+    exactly once, still queued, or still held by one of the remaining processing calls, or was
+    consumed (dispatched / taken / cleared), or was in a slot of the abandoned call. -/
+theorem C09_unwind_discards (h : Reachable b c) :
+    (seqsOf (unwind c).queue ++ seqsOf (unwind c).inflight ++ consumedSeqs (unwind c).trace ++
+      seqsOf (poppedSlots c.stack)).Perm (List.range (unwind c).nextSeq) := by
+  have h1 := h.once_perm
+  have h2 : c.inflight = poppedSlots c.stack ++ (unwind c).inflight := inflightS_belowProc c.stack
+  rw [h2, seqsOf_append] at h1
+  exact (perm_move_mid _ _ _ _).trans h1
+
+/-- with no processing call running (the exception escapes a plain `dispatch`), no event is
+    discarded and the counter is untouched: only the stack goes -/
+theorem C09_unwind_dispatch_only (h : Reachable b c) (hp : procCount c.stack = 0) :
+    unwind c = { c with stack := [] } ∧ poppedSlots c.stack = [] := by
+  refine ⟨?_, poppedSlots_of_procCount_zero hp⟩
+  have : c.ec = 0 := by rw [h.guard, hp]
+  simp [unwind, belowProc_of_procCount_zero hp, this]
+
+/-- **(d) Slot discipline is untouched**: queued slots are occupied, free slots are empty, the
+    slots of the remaining processing calls are as they must be, and the slots of queue, free
+    list and remaining calls together with the destroyed ones are exactly the slots ever created,
+    each once — in particular no slot is both destroyed and still linked somewhere. -/
+theorem C09_unwind_slots (h : Reachable b c) :
+    (∀ s ∈ (unwind c).queue, s.ev.isSome) ∧ (∀ s ∈ (unwind c).free, s.ev = none) ∧
+    (∀ mode todo kept idle ph, QFrame.proc mode todo kept idle ph ∈ (unwind c).stack →
+      (∀ s ∈ todo, s.ev.isSome) ∧ (∀ s ∈ kept, s.ev.isSome) ∧ (∀ s ∈ idle, s.ev = none) ∧ todo ≠ []) ∧
+    (sidsOf ((unwind c).queue ++ (unwind c).free ++ (unwind c).inflight) ++
+      sidsOf (poppedSlots c.stack)).Perm (List.range (unwind c).nextSlot) := by
+  refine ⟨h.queue_occupied, h.free_empty, ?_, ?_⟩
+  · intro mode todo kept idle ph hm
+    have hm' : QFrame.proc mode todo kept idle ph ∈ c.stack := (belowProc_suffix c.stack).subset hm
+    have := h.frame_slots hm'
+    exact ⟨this.1, this.2.1, this.2.2, h.todo_ne_nil hm'⟩
+  · have h1 := h.sids_perm
+    have h2 : c.inflight = poppedSlots c.stack ++ (unwind c).inflight := inflightS_belowProc c.stack
+    rw [h2] at h1
+    refine List.Perm.trans ?_ h1
+    rw [List.perm_iff_count]
+    intro x
+    simp only [sidsOf_append, List.count_append, unwind_queue, unwind_free]
+    omega
+
+/-- **The object stays usable**: what is left is a stack a program may run on — the caller's
+    handler, whatever it does (`p` arbitrary), finds a well-shaped stack with an exact guard. -/
+theorem C09_unwind_resumable (h : Reachable b c) (p : QProg) :
+    StackOk (resume c p).stack ∧ (resume c p).ec = procCount (resume c p).stack ∧
+    (resume c p).queue = c.queue ∧ (resume c p).lists = c.lists ∧ (resume c p).filters = c.filters :=
+  ⟨unwind_resumable h.shape p, by
+    show (unwind c).ec = procCount (.prog p :: (unwind c).stack)
+    rw [procCount_cons]; simpa [isProc] using unwind_guard h.guard, rfl, rfl, rfl⟩
+
+/-- the events still pending in the remaining calls and in the queue are still in enqueue order
+    (`std::list` policy) -/
+theorem C09_unwind_fifo (h : Reachable b c) (ho : c.ordered = none) :
+    (seqsOf (pendS (unwind c).stack ++ (unwind c).queue)).Pairwise (· < ·) := by
+  have h1 := h.fifo ho
+  rw [pendS_belowProc] at h1
+  refine h1.sublist (List.Sublist.filterMap _ ?_)
+  simp only [unwind_stack, unwind_queue, List.append_assoc]
+  exact (List.Sublist.refl _).append (List.sublist_append_right _ _)
+
+/-- **In succession**: the exception keeps travelling through `n` enclosing processing calls.
+    After each of them the guard is exact, queue / listeners / filters / free list are what they
+    were, and the discarded events are exactly those of the abandoned calls. -/
+theorem C09_unwind_succession (h : Reachable b c) (n : Nat) :
+    (unwindN n c).ec = procCount (unwindN n c).stack ∧
+    (unwindN n c).queue = c.queue ∧ (unwindN n c).lists = c.lists ∧
+    (unwindN n c).filters = c.filters ∧ (unwindN n c).free = c.free ∧
+    (seqsOf (unwindN n c).queue ++ seqsOf (unwindN n c).inflight ++ consumedSeqs (unwindN n c).trace ++
+      seqsOf (discardedN n c.stack)).Perm (List.range (unwindN n c).nextSeq) ∧
+    (0 < n → ∀ p, StackOk (.prog p :: (unwindN n c).stack)) := by
+  obtain ⟨hq, hf, hl, hfi, htr, hns, _, _⟩ := unwindN_keeps c n
+  refine ⟨unwindN_guard h.guard n, hq, hl, hfi, hf, ?_, ?_⟩
+  · have h1 := h.once_perm
+    rw [unwindN_inflight c n, seqsOf_append] at h1
+    rw [hq, htr, hns]
+    exact (perm_move_mid _ _ _ _).trans h1
+  · intro hn p
+    cases n with
+    | zero => omega
+    | succ n =>
+      have : ∀ (m : Nat) (c : QCfg), COk false c.stack → COk false (unwindN m c).stack := by
+        intro m
+        induction m with
+        | zero => exact fun _ h => h
+        | succ m ih => exact fun c hc => ih (unwind c) hc.belowProc
+      exact .prog (this n (unwind c) h.shape.belowProc)
+
+/-! ### Part 3 is not vacuous
+
+The run of `Q/Demo.lean`: `listen 0 1; enqueue 10; enqueue 11; enqueue 12; processIf 7; process;
+emptyq`, where listener 1 enqueues (0, 99) on its first call and predicate 7 declines argument 11.
+At step 11 `processIf` has dispatched event 0, has put event 1 aside (`kept`), and the listener
+called for event 2 is running; event 3 was enqueued by the listener meanwhile. -/
+
+example : Reachable Demo.beh (Demo.at_ 11) := Demo.at_reachable 11
+
+/-- the listener throws at step 11: events 2 and 1 (held by the call) are discarded, event 3 stays
+    queued, event 0 stays consumed, the guard drops to 0, the queue does not report empty, and the
+    cleared slot of event 0 is destroyed with the other two -/
+example : procCount (Demo.at_ 11).stack = 1 ∧ (Demo.at_ 11).ec = 1 ∧
+    seqsOf (poppedSlots (Demo.at_ 11).stack) = [2, 1] ∧ sidsOf (poppedSlots (Demo.at_ 11).stack) = [2, 1, 0] ∧
+    seqsOf (unwind (Demo.at_ 11)).queue = [3] ∧ (unwind (Demo.at_ 11)).inflight = [] ∧
+    consumedSeqs (unwind (Demo.at_ 11)).trace = [0] ∧ (unwind (Demo.at_ 11)).nextSeq = 4 ∧
+    (unwind (Demo.at_ 11)).ec = 0 ∧ (unwind (Demo.at_ 11)).emptyQueue = false ∧
+    (unwind (Demo.at_ 11)).stack.length = 0 := by decide +kernel
+
+namespace C09Demo
+open Demo
+
+/-- the first listener call enqueues two events and calls `processOne` (a processing call nested
+    in a processing call); later listener calls just look at the list -/
+def beh : QBeh where
+  run call nth :=
+    match call.kind with
+    | .listener => if nth = 0 then seqProg [.enqueue 0 20, .enqueue 0 21, .processOne] else seqProg [.hasAny 0]
+    | .filter => .ret true
+    | .pred => .ret true
+  rewrite _ a := a
+
+def main : QProg := seqProg [.listen 0 1, .enqueue 0 10, .enqueue 0 11, .process]
+def c0 : QCfg := { stack := [.prog main] }
+def at_ (n : Nat) : QCfg := (QCfg.runN beh n c0).1
+theorem at_reachable (n : Nat) : Reachable beh (at_ n) :=
+  (Reachable.init ⟨rfl, rfl, rfl, rfl, rfl, rfl, main, rfl⟩).runN n
+
+/-- step 8: `process` took events 0 and 1; the listener for event 0 enqueued events 2 and 3 and
+    called `processOne`, which took event 2, whose listener is running -/
+example : procCount (at_ 8).stack = 2 ∧ (at_ 8).ec = 2 ∧ seqsOf (at_ 8).queue = [3] ∧
+    seqsOf (at_ 8).inflight = [2, 0, 1] := by decide +kernel
+
+/-- it throws and the first listener does not catch: first the inner call goes (event 2), then the
+    outer one (events 0 and 1); event 3 stays queued throughout -/
+example : seqsOf (poppedSlots (at_ 8).stack) = [2] ∧ (unwindN 1 (at_ 8)).ec = 1 ∧
+    procCount (unwindN 1 (at_ 8)).stack = 1 ∧ seqsOf (unwindN 1 (at_ 8)).inflight = [0, 1] ∧
+    seqsOf (unwindN 1 (at_ 8)).queue = [3] ∧ (unwindN 1 (at_ 8)).emptyQueue = false ∧
+    seqsOf (discardedN 2 (at_ 8).stack) = [2, 0, 1] ∧ (unwindN 2 (at_ 8)).ec = 0 ∧
+    (unwindN 2 (at_ 8)).stack.length = 0 ∧ seqsOf (unwindN 2 (at_ 8)).queue = [3] ∧
+    (unwindN 2 (at_ 8)).emptyQueue = false := by decide +kernel
+
+/-- the first listener does catch (and returns): the machine runs on to the end of the program —
+    the outer `process` finishes events 0 and 1, event 3 is still queued, the guard is 0, the two
+    surviving slots are recycled -/
+example : (QCfg.runN beh 20 (resume (at_ 8) (.ret true))).2 = true ∧
+    consumedSeqs (QCfg.runN beh 20 (resume (at_ 8) (.ret true))).1.trace = [1, 0] ∧
+    seqsOf (QCfg.runN beh 20 (resume (at_ 8) (.ret true))).1.queue = [3] ∧
+    (QCfg.runN beh 20 (resume (at_ 8) (.ret true))).1.ec = 0 ∧
+    (QCfg.runN beh 20 (resume (at_ 8) (.ret true))).1.emptyQueue = false ∧
+    sidsOf (QCfg.runN beh 20 (resume (at_ 8) (.ret true))).1.free = [0, 1] := by decide +kernel
+
+end C09Demo
+
+end Evp.Q
+
+section Axioms
+open Evp.Fault Evp.Q
+end Axioms
